@@ -85,9 +85,10 @@ def lineNumberFor (l : Link) (opAddr : Nat) : Option Nat :=
   | some (k, _) => if k ≤ (Gen.maxLineNumber : Int) then some k.toNat else none
   | none => none
 
-/-- `Link::has_line_at_end`: a program line starts at the very end of the code (it compiled to nothing) -/
+/-- `Link::has_line_at_end`: something can branch to the very end of the code — a program line
+    that compiled to nothing, or a local label such as the ELSE of a trailing IF (fix D20: any symbol) -/
 def hasLineAtEnd (l : Link) : Bool :=
-  l.symbols.any (fun p => 0 ≤ p.1 && p.1 ≤ (Gen.maxLineNumber : Int) && p.2.1 == l.ops.size)
+  l.symbols.any (fun p => p.2.1 == l.ops.size)
 
 def readData (l : Link) : Link × Except Error Val :=
   match l.data[l.dataPos]? with
